@@ -9,6 +9,7 @@ import (
 	"reflect"
 	"regexp"
 	"strings"
+	"sync"
 	"time"
 
 	jsoniter "github.com/json-iterator/go"
@@ -855,9 +856,42 @@ func base64Texts(c *seq.Ctx) {
 	}
 }
 
+// junkInDigits: quoted digit strings of every length 1..21 with ONE byte replaced, at every position, by
+// every printable non-digit ASCII character (and a few bytes outside ASCII) - decoders with word-at-a-time
+// or table-driven fast paths must refuse each of them.
+var (
+	junkTokens []string
+	junkOnce   sync.Once
+)
+
+func junkInDigits() []string {
+	junkOnce.Do(buildJunk)
+	return junkTokens
+}
+
+func buildJunk() {
+	var junk []byte
+	for b := byte(0x20); b < 0x7f; b++ {
+		if (b < '0' || b > '9') && b != '"' && b != '\\' {
+			junk = append(junk, b)
+		}
+	}
+	junk = append(junk, 0x7f, 0x80, 0xb0, 0xff, 0x00, 0x09)
+	for n := 1; n <= 21; n++ {
+		digits := []byte("123456789012345678901"[:n])
+		for pos := 0; pos < n; pos++ {
+			for _, j := range junk {
+				t := append([]byte(nil), digits...)
+				t[pos] = j
+				junkTokens = append(junkTokens, "\""+string(t)+"\"")
+			}
+		}
+	}
+}
+
 func main() {
 	r := ev.Start("C20")
-	r.Rule("round trips over boundary value sets through the types' own methods, encoding/json and jsoniter; exact-or-error: every string up to the stated length over the alphabet \" 0 1 9 2 5 6 - + . e / space x that json.Valid accepts, plus special long-digit / junk tokens, fed to every UnmarshalJSON and compared with an arbitrary-precision reading of the token (slice-typed receivers also pre-filled: the result must not depend on what the receiver held); every text up to length 5 (quick) / 6 (thorough) over payload / padding / url-alphabet / blank / CR / LF characters plus line-wrapped encodings of 0..130 bytes scanned into Base64Bytes as string and as []byte against a bitwise reference decoder; distinct = (decoder, token class, outcome class)")
+	r.Rule("round trips over boundary value sets through the types' own methods, encoding/json and jsoniter; exact-or-error: every string up to the stated length over the alphabet \" 0 1 9 2 5 6 - + . e / space x that json.Valid accepts, plus special long-digit / junk tokens and quoted digit strings of length 1..21 with one byte at every position replaced by every printable non-digit character, fed to every UnmarshalJSON and compared with an arbitrary-precision reading of the token (slice-typed receivers also pre-filled: the result must not depend on what the receiver held); every text up to length 5 (quick) / 6 (thorough) over payload / padding / url-alphabet / blank / CR / LF characters plus line-wrapped encodings of 0..130 bytes scanned into Base64Bytes as string and as []byte against a bitwise reference decoder; distinct = (decoder, token class, outcome class)")
 	r.Assume("a token 'denotes' an integer iff it is a quoted [+-]?digits string or an integral bare JSON number; an empty string may decode to zero; null may be a no-op")
 	maxLen := r.Pick(6, 7)
 	fams := []seq.Family{
@@ -869,6 +903,9 @@ func main() {
 		d := &intDecoders[i]
 		fams = append(fams, seq.Family{Name: "tokens/" + d.name, Run: func(c *seq.Ctx) {
 			for _, t := range specialTokens {
+				checkInt(c, d, t)
+			}
+			for _, t := range junkInDigits() {
 				checkInt(c, d, t)
 			}
 			enumTokens(maxLen, alphabet, func(tok string) {
